@@ -153,15 +153,16 @@ mod proofs {
         socketaddr_read_case::<17>(false);
     }
 
-    /// `BitVec::read`, bytes field absent or of the concrete length N (content symbolic), size
-    /// absent or any u64: never panics; accepted iff size <= 8 * N, and then the result has
-    /// exactly `size` bits, equal to the leading bits of the bytes (big endian within a byte).
+    /// `BitVec::read`, bytes field of the concrete length N (content symbolic) and, separately,
+    /// absent; size absent or any u64: never panics; accepted iff size <= 8 * N, and then the
+    /// result has exactly `size` bits, equal to the leading bits of the bytes (big endian within
+    /// a byte). Presence of `bytes` is NOT a symbolic choice inside one value: merging `Some(vec)`
+    /// with `None` leaves CBMC with a vector of symbolic length (12 GB exhausted, measured).
     fn bitvec_read_case<const N: usize>() {
         let raw: [u8; N] = kani::any();
-        let bytes = if kani::any() { Some(raw.to_vec()) } else { None };
-        let t = pstd::BitVector { size: kani::any(), bytes };
+        let t = pstd::BitVector { size: kani::any(), bytes: Some(raw.to_vec()) };
         let r = <BitVec as ProtoFmt>::read(&t);
-        if let (Some(size), Some(_)) = (t.size, &t.bytes) {
+        if let Some(size) = t.size {
             assert!(r.is_ok() == (size <= 8 * N as u64));
             if let Ok(v) = &r {
                 assert!(v.len() as u64 == size);
@@ -178,9 +179,13 @@ mod proofs {
         kani::cover!(r.is_err());
         std::mem::forget(r);
         std::mem::forget(t);
+        let t = pstd::BitVector { size: kani::any(), bytes: None };
+        let r = <BitVec as ProtoFmt>::read(&t);
+        assert!(r.is_err());
+        std::mem::forget(r);
     }
 
-    /// One harness per bytes length (all four lengths in one harness exhaust 12 GB in the solver).
+    /// One harness per bytes length.
     /// Longest loop: `bit_vec::reverse_bits`, 8 iterations.
     macro_rules! bitvec_read_total {
         ($name:ident, $len:expr) => {
